@@ -475,34 +475,48 @@ theorem ascii_writer_seeded_panics :
     writeAll asciiWrite (asciiNew 2 0) 0 [[12, 12, 12]] = .ok (⟨2, 0, 3, 50, 0⟩, 37) := by
   decide
 
-/-- hexpairwriter, the code as it is: a fixed buffer of width*200+1 bytes that is never grown.
-    KNOWN FINDING hexpairwriter-fixed-buffer (found while widening the byte_colors dimension,
-    replayed on the real binary): a colour value of 40 `+`-joined names makes every formatted
-    byte 285 bytes long: index out of range -/
-theorem hexpair_writer_long_colour_panics :
-    (hexpairWrite (hexpairNew 2 0) [285, 285, 285, 285, 285, 285]).isPanic = true ∧
-    hexpairWrite (hexpairNew 2 0) [12, 12, 12] = .ok (⟨2, 0, 3, 401, 0⟩, 38) := by
+/-- hexpairwriter (with the grow check of `fix: hexpairwriter: grow line buffer …`): for EVERY
+    width ≥ 1, start offset, split into Write calls and formatted-byte length, no index or slice
+    is out of range -/
+theorem hexpair_writer_total (width start : Nat) (hw : 1 ≤ width) (chunks : List (List Nat)) :
+    (writeAll hexpairWrite (hexpairNew width start) 0 chunks).noFault = true := by
+  have hg := writeAll_hexpair_good chunks (hexpairNew width start) 0 hw
+    ⟨by show 0 ≤ width * 200 + 1; omega, by show 1 ≤ width * 200 + 1; omega⟩
+  revert hg
+  cases writeAll hexpairWrite (hexpairNew width start) 0 chunks with
+  | ok r => intro _; rfl
+  | err k => intro _; rfl
+  | panic w => intro h; exact h.elim
+  | resource w => intro h; exact h.elim
+
+/-- FOUND BY THIS CHECK (finding hexpairwriter-fixed-buffer, found while widening the byte_colors
+    dimension, replayed on the real binary, since fixed): with the fixed buffer of width*200+1
+    bytes a colour value of 40 `+`-joined names (285 bytes per formatted byte) indexed out of range -/
+theorem hexpair_writer_old_long_colour_panics :
+    (hexpairWriteOld (hexpairNew 2 0) [285, 285, 285, 285, 285, 285]).isPanic = true ∧
+    hexpairWriteOld (hexpairNew 2 0) [12, 12, 12] = .ok (⟨2, 0, 3, 401, 0⟩, 38) ∧
+    (hexpairWrite (hexpairNew 2 0) [285, 285, 285, 285, 285, 285]).noFault = true := by
   decide
 
-theorem hexpair_writer_total_false : ¬ ∀ width start p, 1 ≤ width → (hexpairWrite (hexpairNew width start) p).noFault = true := by
+theorem hexpair_writer_old_not_total :
+    ¬ ∀ width start p, 1 ≤ width → (hexpairWriteOld (hexpairNew width start) p).noFault = true := by
   intro h
   have := h 2 0 [285, 285, 285, 285, 285, 285] (by decide)
   revert this
   decide
 
-/-- PARTIAL.  Full statement: `∀ width ≥ 1, start, p, (hexpairWrite (hexpairNew width start) p).noFault`
-    — FALSE (`hexpair_writer_total_false`).  Proved: every Write whose formatted bytes are at most
-    199 bytes long each (the invariant is bufOffset ≤ 1 + 200·(offset mod width)) -/
-theorem hexpair_writer_total_partial (width start : Nat) (hw : 1 ≤ width) (p : List Nat) (hp : ∀ c ∈ p, c ≤ 199) :
-    (hexpairWrite (hexpairNew width start) p).noFault = true := by
-  unfold hexpairWrite hexpairNew
+/-- the old code was fault-free exactly as far as its sizing assumption went: formatted bytes of at
+    most 199 bytes (invariant bufOffset ≤ 1 + 200·(offset mod width)) -/
+theorem hexpair_writer_old_total_partial (width start : Nat) (hw : 1 ≤ width) (p : List Nat) (hp : ∀ c ∈ p, c ≤ 199) :
+    (hexpairWriteOld (hexpairNew width start) p).noFault = true := by
+  unfold hexpairWriteOld hexpairWriteWith hexpairNew
   have hw0 : (width == 0) = false := by simp; omega
   simp only [hw0]
-  have key : ∀ h : LineWriter, HpInv h → (hexpairLoop h ((start - 0) * 3) p).noFault = true := by
+  have key : ∀ h : LineWriter, HpInv h → (hexpairLoopWith false h ((start - 0) * 3) p).noFault = true := by
     intro h hinv
     have hg := hexpairLoop_good p hp h ((start - 0) * 3) hinv
     revert hg
-    cases hexpairLoop h ((start - 0) * 3) p with
+    cases hexpairLoopWith false h ((start - 0) * 3) p with
     | ok r => intro _; rfl
     | err k => intro _; rfl
     | panic w => intro h; exact h.elim
@@ -510,6 +524,32 @@ theorem hexpair_writer_total_partial (width start : Nat) (hw : 1 ≤ width) (p :
   have hm : max 0 start = start := Nat.max_eq_right (Nat.zero_le _)
   simp only [hm, gt_iff_lt, Nat.lt_irrefl, Bool.false_eq_true, if_false, Outcome.bind]
   exact key ⟨width, start, start, width * 200 + 1, 0⟩ ⟨hw, rfl, Nat.zero_le _⟩
+
+/-! ## byte_colors ranges (decorator.go) -/
+
+/-- the loop over a range runs at most 256 times whatever the range ends are (negative, huge,
+    reversed) — and is modelled without a fault -/
+theorem byte_color_range_bounded (lo hi : Int) :
+    byteColorIters lo hi ≤ 256 ∧ (byteColorLoop lo hi).noFault = true := by
+  refine ⟨?_, rfl⟩
+  unfold byteColorIters
+  omega
+
+/-- only byte values are coloured: a range colours b exactly when max(lo,0) ≤ b ≤ min(hi,255) -/
+theorem byte_in_range_iff (lo hi : Int) (b : Nat) :
+    byteInRange lo hi b = true ↔ (lo ≤ b ∧ (b : Int) ≤ hi ∧ b ≤ 255) := by
+  unfold byteInRange
+  simp only [Bool.and_eq_true, decide_eq_true_eq]
+  omega
+
+/-- FOUND BY THIS CHECK (finding byte-colors-huge-range-hang, since fixed): the old loop
+    `for i := r[0]; i <= r[1]; i++` never ended for `[[0, 9223372036854775807]]` -/
+theorem byte_color_old_huge_range_hangs :
+    (byteColorLoopOld 0 9223372036854775807).isResource = true ∧
+    (byteColorLoopOld (-9223372036854775808) 66).isResource = true ∧
+    byteColorLoop 0 9223372036854775807 = .ok 256 ∧ byteColorLoop (-9223372036854775808) 66 = .ok 67 ∧
+    byteColorLoop 255 0 = .ok 0 ∧ byteColorLoop 256 300 = .ok 0 := by
+  decide
 
 /-! ## _stdio_read -/
 
